@@ -362,6 +362,8 @@ func runRecv(r *common.Run, maxbuf0 int, carrier string, ops []rop, class string
 			switch {
 			case code == "ack" && o.seq != expSeq:
 				r.Fail("refuse", "out-of-sequence-packet-accepted", line(), fmt.Sprintf("packet seq %d acknowledged, expected seq was %d", o.seq, expSeq))
+			case code == "ack" && derr == nil && maxbuf > 0 && unread+len(dec) > maxbuf:
+				r.Fail("refuse", "oversize-packet-accepted", line(), fmt.Sprintf("the receive buffer is limited to %d bytes (as requested, raised only to the block size), %d are buffered, a packet of %d bytes was acknowledged instead of refused with resource-constraint", maxbuf, unread, len(dec)))
 			case code == "ack" && derr != nil:
 				r.Fail("refuse", "undecodable-packet-accepted", line(), fmt.Sprintf("payload %q acknowledged", o.payload))
 			case code != "ack" && valid && o.seq == expSeq:
